@@ -328,9 +328,17 @@ def _short_entry(rel: str, q: str) -> str:
 
 
 def _write_sinks(repo) -> Tuple[Dict[str, List[str]], List[ast.Call]]:
+    import re
+
+    from ..iohelpers import PATH_WRITE_METHODS
+
+    # textual pre-filter, a superset of what write_kind can match (keeps the big dialect modules out of the walk)
+    rx = re.compile(r"\bopen\s*\(|tempfile|shutil|\bos\b|\bio\b|codecs|logging|pathlib|Path\b|\.(?:%s)\s*\(" % "|".join(sorted(PATH_WRITE_METHODS)))
     sinks: Dict[str, List[str]] = {}
     loose: List[ast.Call] = []
     for m in repo.modules.values():
+        if not rx.search(m.text):
+            continue
         for c in all_calls(m):
             k = write_kind(c)
             if not k:
